@@ -74,6 +74,38 @@ Definition add_flags (g_flags : Z) (flagsToAdd : list Z) : Z :=
   g_flags.
 Definition translated_add_flags := true.
 
+(* PrintCtx.pcAppendByte  (returns s.buf; None = panic) *)
+Definition pc_append_byte (s_buf : bytes) (b : Z) : option bytes :=
+  let s_buf := s_buf ++ [zb b] in
+  Some (s_buf).
+Definition translated_pc_append_byte := true.
+
+(* PrintCtx.pcAppendStringValue  (returns s.buf; None = panic) *)
+   (* no tracked effect (declared): s.preCheck() *)
+Definition pc_append_string_value (s_buf : bytes) (str : bytes) : option bytes :=
+  let s_buf := s_buf ++ str in
+  Some (s_buf).
+Definition translated_pc_append_string_value := true.
+
+(* PrintCtx.pcAppendColon  (returns s.buf; None = panic) *)
+   (* no tracked effect (declared): s.preCheck() *)
+Definition pc_append_colon (s_jsonMode : bool) (s_buf : bytes) : option bytes :=
+  if s_jsonMode
+  then let s_buf := s_buf ++ [zb 58] in
+  Some (s_buf)
+  else let s_buf := s_buf ++ [zb 61] in
+  Some (s_buf).
+Definition translated_pc_append_colon := true.
+
+(* PrintCtx.pcAppendComma  (returns s.buf; None = panic) *)
+Definition pc_append_comma (s_jsonMode : bool) (s_buf : bytes) : option bytes :=
+  if s_jsonMode
+  then let s_buf := s_buf ++ [zb 44] in
+  Some (s_buf)
+  else let s_buf := s_buf ++ [zb 32] in
+  Some (s_buf).
+Definition translated_pc_append_comma := true.
+
 (* Entry.printImpl  (the statements after the blank-line rule; returns (deliveries, context); None = panic) *)
    (* argument not kept by the model (declared): pc.kvps *)
 Definition print_impl {R E D : Type} (f_begin f_timestamp f_name f_severity f_msg f_first f_pc f_rest : pcs R -> pcs R) (f_attrs : pcs R -> E * pcs R) (f_errdump : pcs R -> E -> pcs R) (f_end : pcs R -> bool -> pcs R) (f_bytes : pcs R -> bytes) (d_printout : Z -> bytes -> D) (m_mLevelColors : list (Z * list Z)) (g_flags : Z) (pc : pcs R) (tr_ : list D) : option (list D * pcs R) :=
